@@ -233,7 +233,7 @@ def mk(a):
     upem, asc, desc = a["metrics"]
     over = {
         "upem": upem, "ascender": asc, "descender": desc, "width": a["width"], "reuse_tolerance": a["tol"],
-        "clipbox_quantization": a["clipq"], "keep_glyph_names": a["keep"], "color_format": a["fmt"],
+        "clipbox_quantization": a.get("clipq"), "keep_glyph_names": a["keep"], "color_format": a["fmt"],
         "output_file": "x.otf" if a["fmt"].startswith("cff") else "x.ttf",
         "transform": a["user"],
     }
